@@ -274,6 +274,7 @@ func (cli *Client) EnrollContext(c net.Conn, ctx any) (Conn, error) {
 	default:
 		return nil, errorx.ErrUnsupportedProtocol
 	}
+	gc.addrsBorrowed = true
 	gc.SetContext(ctx)
 	gc.SetSafeContext(ctx)
 
